@@ -148,6 +148,7 @@ type world struct {
 	health     [4]int // scripted /healthz status per pool index
 	observed   [4]int // what the gateway's last processed probe of the endpoint saw (-1 = endpoint object is new / never probed)
 	disabledAt map[int]time.Time
+	transient  int // requests sent again because a probe had failed at the transport level (environment)
 }
 
 func (w *world) eligible(s spec, policy int) map[int]bool {
@@ -197,6 +198,8 @@ type result struct {
 	status   int
 	upstream int // -1 = not forwarded
 	bodyFrom string
+	body     string
+	retried  bool
 }
 
 func (w *world) request(policy int) result {
@@ -213,7 +216,7 @@ func (w *world) request(policy int) result {
 	ctx, cancel := context.WithTimeout(context.Background(), 20*time.Second)
 	defer cancel()
 	resp := w.g.Do(ctx, gwbox.RawRequest{Method: "GET", Target: target, Host: "gamma", Headers: [][2]string{{gwbox.IDHeader, id}, {"Authorization", "Bearer client-token"}}})
-	r := result{id: id, status: resp.Status, upstream: -1, bodyFrom: resp.Header.Get("X-Verif-Upstream")}
+	r := result{id: id, status: resp.Status, upstream: -1, bodyFrom: resp.Header.Get("X-Verif-Upstream"), body: string(resp.Body)}
 	if resp.Err != nil && resp.Status == 0 {
 		r.status = -1
 	}
@@ -264,7 +267,19 @@ func (w *world) judge(t *rapid.T, r result, policy int, allowed []map[int]bool, 
 		return
 	}
 	if r.status == 503 && !anyEmpty {
-		t.Fatalf("request for policy %d answered 503 although eligible endpoints exist (%v)\ntrace: %s", policy, allowed, trace)
+		if len(allowed) == 1 && !r.retried && (strings.Contains(r.body, `reason=\"Failure\"`) || strings.Contains(r.body, `reason=\"Timeout\"`)) {
+			// the gateway says why: a PROBE of an endpoint the history made healthy failed at the transport level (the
+			// stub never answers a probe that way; on a heavily loaded machine a loopback request can fail or time out)
+			// and the endpoint is unhealthy until its next probe, 20 ms later. That is the environment, not the
+			// selection: wait until readiness is what the history says and send the request once more
+			w.waitHealth(t, trace)
+			r2 := w.request(policy)
+			r2.retried = true
+			w.transient++
+			w.judge(t, r2, policy, allowed, cut, trace+"(resent after a probe failed at the transport level);")
+			return
+		}
+		t.Fatalf("request for policy %d answered 503 although eligible endpoints exist (%v)\nanswer: %s\ntrace: %s", policy, allowed, r.body, trace)
 	}
 	_ = anyNonEmpty
 	if r.status == 502 {
@@ -282,7 +297,7 @@ func (w *world) judge(t *rapid.T, r result, policy int, allowed []map[int]bool, 
 }
 
 func TestPropEndpointSelection(t *testing.T) {
-	sub := stats.NewSub("spec-and-health-histories", "rapid state machine: ops spec update (servers subset of the pool in any order, disabled flags, one time in five with endpoints listed twice with equal or conflicting flags - disabled if any entry says so, two policies with / without upstream subset), health flip of an upstream (/healthz answers 200 or one of 23 other status codes with a text or API Status body; then trigger + wait), n sequential requests for a policy (one request in three for the catch-all policy has a path that begins with two slashes followed by the address of some upstream of the pool), a burst of requests racing with a spec update, health-check trigger on a disabled endpoint; oracle: a forwarded request reached an endpoint that is in the server list, in the matched policy's subset, enabled and healthy (before or after the update for racing requests), and the answer came from that endpoint; no eligible endpoint => 503 and nothing forwarded; a disabled endpoint gets no proxied request and no probe later than 300 ms after the disabling sync; probes resume on re-enable; non-trivial = >= 1 health flip / disable / enable / subset change followed by >= 1 request; distinct by FNV-64 of the op trace")
+	sub := stats.NewSub("spec-and-health-histories", "rapid state machine: ops spec update (servers subset of the pool in any order, disabled flags, one time in five with endpoints listed twice with equal or conflicting flags - disabled if any entry says so, two policies with / without upstream subset), health flip of an upstream (/healthz answers 200 or one of 23 other status codes with a text or API Status body; then trigger + wait), n sequential requests for a policy (one request in three for the catch-all policy has a path that begins with two slashes followed by the address of some upstream of the pool), a burst of requests racing with a spec update, health-check trigger on a disabled endpoint, an endpoint that turns sick and is disabled while its first failing probe is still on the wire (the probe fails afterwards) and is later enabled again while its probes hang; oracle: a forwarded request reached an endpoint that is in the server list, in the matched policy's subset, enabled and healthy (before or after the update for racing requests), and the answer came from that endpoint; no eligible endpoint => 503 and nothing forwarded; a disabled endpoint gets no proxied request and no probe later than 300 ms after the disabling sync; probes resume on re-enable; non-trivial = >= 1 health flip / disable / enable / subset change followed by >= 1 request; distinct by FNV-64 of the op trace")
 	stats.Check(t, stats.N(40, 300), func(t *rapid.T) {
 		g := gwbox.NewGateway()
 		defer g.Close()
@@ -348,6 +363,66 @@ func TestPropEndpointSelection(t *testing.T) {
 				w.waitHealth(t, trace)
 				changed = true
 				sub.Class("spec-update")
+			},
+			"probeAnsweredAfterDisable": func(t *rapid.T) {
+				// an endpoint that serves turns sick; its first failing probe is still on the wire when a spec update
+				// disables it, and fails afterwards. Later it is enabled again while its /healthz does not answer: until a
+				// probe says otherwise, the last probe it answered was a failure - it gets no traffic
+				var cands []int
+				for _, i := range w.cur.servers {
+					if !w.cur.disabled[i] && w.observed[i] == 200 && w.health[i] == 200 {
+						cands = append(cands, i)
+					}
+				}
+				if len(cands) == 0 || w.cur.entries != nil {
+					t.Skip("no serving endpoint (or a spec with duplicate entries)")
+				}
+				i := rapid.SampledFrom(cands).Draw(t, "endpoint")
+				up := pool.Upstreams[i]
+				hold := make(chan struct{})
+				up.SetHealthBody("")
+				up.SetHealth(rapid.SampledFrom([]int{500, 503, 404}).Draw(t, "failsWith"))
+				up.SetHealthHold(hold)
+				before := len(up.Probes())
+				ci, _ := g.Box.Controller.Get("gamma")
+				if info, ok := ci.Endpoints.Load(up.URL); ok {
+					info.TriggerHealthCheck()
+				}
+				if !waitUntil(5*time.Second, func() bool { return len(up.Probes()) > before }) {
+					close(hold)
+					up.SetHealthHold(nil)
+					sub.Inconclusive()
+					t.Skip("the probe did not reach the stub")
+				}
+				// disabled while the probe is on the wire
+				n := w.cur.clone()
+				n.disabled[i] = true
+				applySpec(t, n)
+				close(hold) // the probe fails now
+				up.SetHealthHold(nil)
+				time.Sleep(30 * time.Millisecond)
+				w.health[i] = 500
+				w.observed[i] = 500 // the last probe the endpoint answered
+				trace += fmt.Sprintf("sick(%d)+disabled-while-its-failing-probe-was-on-the-wire;", i)
+				// enabled again; its /healthz does not answer for now
+				hold2 := make(chan struct{})
+				up.SetHealthHold(hold2)
+				n2 := w.cur.clone()
+				delete(n2.disabled, i)
+				applySpec(t, n2)
+				trace += fmt.Sprintf("re-enabled(%d) while its probes hang;", i)
+				for k := 0; k < 4; k++ {
+					policy := k % 2
+					el := w.eligible(w.cur, policy)
+					r := w.request(policy)
+					trace += fmt.Sprintf("req(p%d)->%d@%d;", policy, r.status, r.upstream)
+					w.judge(t, r, policy, []map[int]bool{el}, nil, trace)
+				}
+				close(hold2)
+				up.SetHealthHold(nil)
+				w.waitHealth(t, trace)
+				changed, nt = true, true
+				sub.Class("probe-answered-after-the-endpoint-was-disabled")
 			},
 			"health": func(t *rapid.T) {
 				i := rapid.IntRange(0, 3).Draw(t, "upstream")
@@ -486,6 +561,9 @@ func TestPropEndpointSelection(t *testing.T) {
 			}
 			sub.Class("disabled-endpoint-quiet-check")
 		}
+		if w.transient > 0 {
+			sub.ClassN("resent-after-a-probe-failed-at-the-transport-level", w.transient)
+		}
 		if nt {
 			sub.NonTrivial(stats.HashString(trace))
 			if sub.WantSample() {
@@ -576,4 +654,23 @@ func TestPropProbeTimesOut(t *testing.T) {
 	}
 	sub.NonTrivial(1)
 	sub.Class("probe-timed-out-and-recovered")
+}
+
+func (s spec) clone() spec {
+	n := spec{servers: append([]int{}, s.servers...), disabled: map[int]bool{}, subsets: s.subsets}
+	for k, v := range s.disabled {
+		n.disabled[k] = v
+	}
+	return n
+}
+
+func waitUntil(d time.Duration, cond func() bool) bool {
+	deadline := time.Now().Add(d)
+	for !cond() {
+		if time.Now().After(deadline) {
+			return false
+		}
+		time.Sleep(time.Millisecond)
+	}
+	return true
 }
